@@ -42,15 +42,16 @@ CRASH_ASSUMPTIONS = COMMON_ASSUMPTIONS + [
 PROPS["C01"] = {
     "level": "fault_enumeration",
     "technique": "generated NFS programs (rapid) -> recorded disk trace -> enumeration of crash points x lost-write variants -> real recovery -> prefix oracle against the reference model; sampled second crashes during recovery and post-recovery workloads",
-    "level_text": "For each generated client program (all mutating RPCs, three stability levels, multi-block and sparse writes, truncations, removals of files large enough for the background shrinker, clean restarts with and without COMMIT) one live run records every disk write and barrier; crash points (quick: <=300 per program, commit-adjacent first; thorough: all) x loss variants are recovered with nfs.MakeNfs and the whole tree (names, handles, sizes, bytes, link targets) must equal the reference state after a prefix j with last-stable-ack <= j <= last-started. 1/16 of the recovered servers run a further workload under the sequential oracle, 1/16 are crashed again at every point of their own recovery writes. 1/48 (thorough 1/64) go on serving a second workload (unstable, data-sync and stable writes, COMMIT, truncation, rename, removal of the largest old file) on the recording image and are then cut at up to 40 (thorough 200) points of that second run and recovered again under the same prefix oracle - crash, recover, go on, crash. A concurrent unit runs 2-4 clients, each in its own directory (so what the directory must hold when one of its stable requests is acknowledged is known exactly), next to requests the journal refuses (600-block symlink targets) and 300-block stable writes; at sampled acknowledgements - and at every one during which the journal header was not written - the device image of that moment (cut, and with all un-barriered writes lost) is recovered and the client's directory compared with its own model.",
+    "level_text": "For each generated client program (all mutating RPCs, three stability levels, multi-block and sparse writes, truncations, removals of files large enough for the background shrinker, clean restarts with and without COMMIT) one live run records every disk write and barrier; crash points (quick: <=300 per program, commit-adjacent first; thorough: all) x loss variants are recovered with nfs.MakeNfs and the whole tree (names, handles, sizes, bytes, link targets) must equal the reference state after a prefix j with last-stable-ack <= j <= last-started. 1/16 of the recovered servers run a further workload under the sequential oracle, 1/16 are crashed again at every point of their own recovery writes. 1/48 (thorough 1/64) go on serving a second workload (unstable, data-sync and stable writes, COMMIT, truncation, rename, removal of the largest old file) on the recording image and are then cut at up to 40 (thorough 200) points of that second run and recovered again under the same prefix oracle - crash, recover, go on, crash. A concurrent unit runs 2-4 clients, each in its own directory (so what the directory must hold when one of its stable requests is acknowledged is known exactly), next to requests the journal refuses (600-block symlink targets) and 300-block stable writes; at sampled acknowledgements - and at every one during which the journal header was not written - the device image of that moment (cut, and with all un-barriered writes lost) is recovered and the client's directory compared with its own model. A further unit runs the nearly-full-disk engine (60-1500 data blocks filled to 0-3 free blocks, nearly exhausted inode table, short writes at index-block edges): at every restart action and at the end the device as it is at that moment is recovered by a second server and must show every request acknowledged so far.",
     "level_note": "Programs, and the timing of background threads in the live run, are sampled; crash points and loss variants are enumerated per trace as stated. Trusts the reference model (harness/checks/model.go) and the disk contract.",
     "rule": ("unit = one crash image (program, crash point k, loss variant). Non-trivial: an operation is in flight or unstable operations are pending at k "
              "(the oracle window lo<hi), or at least one un-barriered write is dropped. distinct = FNV hash of (program history, disk size, k, variant)."),
     "assumptions": CRASH_ASSUMPTIONS,
-    "required_classes": ["acknowledgements_verified_in_a_crash_image", "crash_images", "images_followed_by_suffix_workload", "recrash_images", "second_epoch_crash_images"],
+    "required_classes": ["acknowledgements_verified_in_a_crash_image", "crash_images", "images_followed_by_suffix_workload", "recrash_images", "second_epoch_crash_images", "crash_images_of_nearly_full_disks"],
     "units": [
         {"test": "^TestC01Crash$", "quick": {"checks": 5, "shards": 2, "procs": 8, "timeout": 600},
          "thorough": {"checks": 24, "shards": 4, "procs": 4, "timeout": 7200}},
+        {"test": "^TestC01Full$", "quick": {"checks": 40, "shards": 4, "steps": 40}, "thorough": {"checks": 500, "shards": 8, "steps": 60}},
         {"test": "^TestC01ConcAck$", "quick": {"checks": 40, "shards": 4}, "thorough": {"checks": 1500, "shards": 8, "timeout": 7200}},
     ],
 }
